@@ -32,6 +32,10 @@ class Fake:
                     outer.requests.append({"path": self.path, "auth": self.headers.get("authorization"), "body": req})
                 cond = user.split("\n\nBLOCK (formatting preserved):\n")[0][len("CONDITION:\n"):] if user.startswith("CONDITION:\n") else None
                 act = outer.plan.get(cond, {"reply": "OK"})
+                # an answer may be held back ("delay" seconds): answers then arrive in another order than the requests were sent
+                if act.get("delay"):
+                    import time as _t
+                    _t.sleep(float(act["delay"]))
 
                 def send(code, payload, ct="application/json"):
                     self.send_response(code)
